@@ -59,6 +59,7 @@ DECORATORS = [
     "x.y.z", "f(x)(y)", "abc.abstractmethod", "'s'", "1", "({a} := {b})", "functools.cached_property", "cached_property", "typing_extensions.overload",
     "f(\n    1,\n)", "[d][0]", "not x", "x @ y",
 ]
+DECORATORS_ASYNC = ["(await {a})", "{a}(await {b})", "(await {a}).{b}"]
 PARAMS = [
     "", "self", "self, a, b=1", "*, a", "a, /", "a, /, b, *c, d=1, **e", "*args: int, **kw: str", "self, x: 'T' = None", "a=lambda: 0", "a: int = (1, 2)",
     "cls", "self=None", "self,\n        a,\n        b=(\n            1),",
@@ -70,6 +71,7 @@ COMPOUND = [
     ("if", 3), ("iftc", 2), ("ifttc", 2), ("ifnottc", 2), ("iftcand", 1), ("eliftc", 2), ("try", 4), ("tryfinally", 2), ("trystar", 2), ("trybare", 2),
     ("for", 2), ("forunpack", 1), ("forattr", 1), ("while", 2), ("with", 1), ("withas", 1), ("withmulti", 1), ("withparen", 1), ("match", 4),
     ("def", 1), ("asyncdef", 1), ("class", 1), ("defgeneric", 1), ("asyncfor", 1), ("asyncwith", 1), ("nonlocal", 0), ("defglobal", 1), ("oneline", 0),
+    ("initnest", 2),
 ]
 N_SIMPLE = len(SIMPLE)
 N_T = N_SIMPLE + len(COMPOUND)
@@ -106,13 +108,13 @@ def programs():
 
 
 class _Ctx:
-    __slots__ = ("func", "is_async", "loop", "modlevel", "noflow")
+    __slots__ = ("func", "is_async", "loop", "modlevel", "noflow", "cls")
 
-    def __init__(self, func=False, is_async=False, loop=False, modlevel=True, noflow=False):
-        self.func, self.is_async, self.loop, self.modlevel, self.noflow = func, is_async, loop, modlevel, noflow
+    def __init__(self, func=False, is_async=False, loop=False, modlevel=True, noflow=False, cls=False):
+        self.func, self.is_async, self.loop, self.modlevel, self.noflow, self.cls = func, is_async, loop, modlevel, noflow, cls
 
     def but(self, **kw):
-        c = _Ctx(self.func, self.is_async, self.loop, self.modlevel, self.noflow)
+        c = _Ctx(self.func, self.is_async, self.loop, self.modlevel, self.noflow, self.cls)
         for k, v in kw.items():
             setattr(c, k, v)
         return c
@@ -143,10 +145,13 @@ def _block(ws: list, ind: str, ctx: _Ctx) -> list[str]:
     return out or [ind + "pass"]
 
 
-def _decorators(w: dict, ind: str) -> list[str]:
+def _decorators(w: dict, ind: str, ctx: "_Ctx") -> list[str]:
     k = w["e"][2] if len(w["e"]) > 2 else 0
     count = k % 3
     out = []
+    if ctx.func and ctx.is_async and k % 2 == 0:
+        # decorators are evaluated in the enclosing scope: inside an async function they may await
+        out.extend(_indent("@" + _fmt(DECORATORS_ASYNC[k % len(DECORATORS_ASYNC)], w), ind))
     for i in range(count):
         d = DECORATORS[(k // 3 + i * 7) % len(DECORATORS)]
         out.extend(_indent("@" + _fmt(d, w), ind))
@@ -241,20 +246,22 @@ def _stmt(w: dict, ind: str, ctx: _Ctx) -> list[str]:
         ret = RETS[w["e"][1] % len(RETS)]
         gen = "[T, *Ts]" if kind == "defgeneric" else ""
         fc = _Ctx(func=True, is_async=is_async, loop=False, modlevel=False)
+        if ctx.cls and w["n"][1] % 3 == 0:
+            a = "__init__"  # Griffe descends into the body of a class-level __init__
         head = _indent(f"{'async ' if is_async else ''}def {a}{gen}({params}){ret}:", ind)
         body = _block(b[0], ind2, fc)
         if kind == "defglobal":
             body = [ind2 + "global g_only", ind2 + "g_only = 1"] + body
         if w["e"][0] % 5 == 0:
             body = [ind2 + '"""Docstring.', "", ind2 + "More.", ind2 + '"""'] + body
-        return _decorators(w, ind) + head + body
+        return _decorators(w, ind, ctx) + head + body
     if kind == "class":
         bases = BASES[w["n"][2] % len(BASES)]
-        cc = _Ctx(func=False, is_async=False, loop=False, modlevel=False)
+        cc = _Ctx(func=False, is_async=False, loop=False, modlevel=False, cls=True)
         body = _block(b[0], ind2, cc)
         if w["e"][0] % 4 == 0:
             body = [ind2 + "'''Class doc.'''"] + body
-        return _decorators(w, ind) + _indent(f"class {a}{bases}:", ind) + body
+        return _decorators(w, ind, ctx) + _indent(f"class {a}{bases}:", ind) + body
     if kind in ("asyncfor", "asyncwith"):
         if not (ctx.func and ctx.is_async):
             fc = _Ctx(func=True, is_async=True, loop=False, modlevel=False)
@@ -263,6 +270,16 @@ def _stmt(w: dict, ind: str, ctx: _Ctx) -> list[str]:
         if kind == "asyncfor":
             return _indent(f"async for {a} in {e}:", ind) + _block(b[0], ind2, ctx.but(loop=True))
         return _indent(f"async with {e} as {a}:", ind) + blk(b[0])
+    if kind == "initnest":
+        # a class whose (possibly async) __init__ contains a decorated nested class and arbitrary statements:
+        # Griffe descends into class-level __init__ bodies
+        is_async = w["e"][1] % 2 == 0
+        fc = _Ctx(func=True, is_async=is_async, loop=False, modlevel=False)
+        ind3 = ind2 + "    "
+        out = [ind + f"class {a}:", ind2 + f"{'async ' if is_async else ''}def __init__(self, u=1):"]
+        out += _decorators(w, ind3, fc) + [ind3 + f"class {bname}:"] + _block(b[1], ind3 + "    ", _Ctx(modlevel=False, cls=True))
+        out += _block(b[0], ind3, fc)
+        return out
     if kind == "nonlocal":
         return [ind + f"def {a}():", ind2 + "nl = 1", ind2 + "def inner():", ind2 + "    nonlocal nl", ind2 + "    nl = 2", ind2 + "return inner"]
     if kind == "oneline":
@@ -343,15 +360,18 @@ def run_pysource(ctx, check_case, describe) -> None:
 
     n = 40
     done = 0
+    import time
+
     for i in range(n):
-        if ctx.out_of_budget():
+        # at most a quarter of the shard's budget goes to pysource_codegen (2-4 s per module); the clock only ends the search early
+        if ctx.out_of_budget() or time.monotonic() - ctx.t0 > 0.25 * ctx.budget_s:
             break
         seed = derive_seed(ctx.base_seed, ctx.shard, f"pysource{i}") % (2**31)
         try:
             text = generate(seed)
         except Exception:  # noqa: BLE001
             continue
-        case = {"kind": "text", "entry": "visit", "origin": "pysource_codegen", "seed": seed, "text": text}
+        case = {"kind": "text", "entry": "load" if i % 4 == 3 else "visit", "origin": "pysource_codegen", "seed": seed, "text": text}
         fails = run_check(check_case, case)
         ctx.case(None, ("pysource:valid",), None)
         done += 1
